@@ -51,7 +51,15 @@ PROP = {
             "(real pump / copy loop, pipe, bufio) + IoReader, run-id wrappers (foreign id, '?', StartPoint at reconnect), reference-leak check after "
             "ChannelReader.Close / WaitCloser, chunks and segments up to 33 KiB / 40 KiB (memory also LogSize 0), 2.6 MiB through one pipe with a consumer that lags by more than pipe + buffered "
             "reader hold and tops its buffer up with Peek (the pipe's ring wraps), and a "
-            "concurrent phase (writer, 2 followers, 3 openers at the left edge, collector loop as real goroutines). "
+            "concurrent phase (writer, 2 followers, 3 openers at the left edge, collector loop as real goroutines); invalidation observed where the "
+            "property says, by CONSUMERS blocked on IoReader() (at the tail, behind it, replaying a snapshot being received): writer replacement, new "
+            "snapshot, id switch and DelRunId must make every consumer end or fail within the budget and the call itself must return (found D28); "
+            "readers opened continuously while the snapshot writer commits small snapshots (D29). Disk harness: the rotation window (next file created, "
+            "not yet indexed; real closeAof + openFile with a stop in between, reader polling at the tail, collector pass inside) followed by several "
+            "segments with collector passes while the reader rests. Memory harness: the snapshot's own offset is valid only while the log starts there "
+            "or is empty (hand-over, D30). C05chan reports as NOTES (counters, never violations) what C05 does not state: the wrappers' answers for '?' "
+            "and StartPoint, a complete snapshot that is not offered, slow writers; the reference count after all readers closed is compared with the "
+            "model (tie), not monitored. "
             "distinct_nontrivial = cases with rotation and a reader that crossed a segment boundary",
     "trusted": [
         "testing/synctest quiescence (memory harness): after synctest.Wait every goroutine of the channel is durably blocked",
@@ -62,18 +70,22 @@ PROP = {
         "the disk backend itself does not check this (the memory backend does: mem_refuses_discontinuous)",
         "a replication-id SWITCH on the disk backend happens between two runs of the input: no writer open (readers may be open and are closed by it); "
         "the same id again is allowed at any time (D27 fixed: it no longer re-scans)",
-        "thread interleavings INSIDE one mutex-protected step and the 10 ms poll / os.Stat race of tryReadNextFile are outside the step-level model; "
+        "thread interleavings INSIDE one mutex-protected step are outside the step-level model (the rotation window of tryReadNextFile is driven separately, monitor only); "
         "a real-goroutine stress phase (writer closed while an endless 1-byte source is being ingested) supports the tie and found D26",
         "memory harness: an append is limited to one mutex-protected piece whenever the collector could run inside it (between two pieces the copy goroutines race with the writer)",
         "the disk model has one run-id directory (SetRunId between two existing directories / DelRunId of a foreign id are C16's subject)",
-        "C05chan is monitor-only: with real pump goroutines the segment a reader holds at a given instant is not a function of the op sequence",
+        "C05chan is monitor-only (apart from the reference count after close): with real pump goroutines the segment a reader holds at a given instant is not a function of the op sequence; "
+        "its real-time budgets are 10-20 s per wait (a machine that stalls a goroutine longer gives a false reader-stalls/invalidated-reader-hangs)",
+        "the sequential harnesses diff reference counts, per-segment sizes and the directory listing with the model after every op: a change of the reference discipline "
+        "is a correspondence DIFF (tie failure, no-failing-input-found), stricter than the property by design",
     ],
     "partial": [
         "mem_reader_delivers_stmt (global refinement of the memory backend over operation lists) is stated, not proved; proved for memory are the step-level theorems "
-        "(every state, hence every interleaving): refusal of discontinuous writers, collector removes only a closed unreferenced prefix, snapshot offered iff replayable + "
+        "(each about ONE step from an arbitrary state; nothing is proved about sequences of steps): refusal of discontinuous writers, collector removes only a closed unreferenced prefix, snapshot offered iff replayable + "
         "finishRdb/collector make it unreplayable when incomplete, copy steps deliver exactly the held segment's bytes, reset empties the index and successor lookup is by identity",
         "disk refinement is proved as `abs s = suffix of the written history from abs.base` in every reachable state (disk_refines) + the per-op history lemma; "
         "a separate abstract transition system with a simulation relation is not defined",
+        "findings of the real-goroutine phases (concurrent phase, invalidation, snapshot race, memory stress) are not replayable inputs: the replay names backend, scenario and seed only",
         "concurrency: real-goroutine phases (memory writer close vs rotation; C05chan: writer + followers + openers + collector) are probabilistic support, not run under -race",
         "disk_reader_progress is one-step enabledness (a read delivers or the rotation step is enabled); a catch-up theorem (the reader REACHES the end under interleaved gc/appends) is not proved",
     ],
@@ -90,6 +102,6 @@ MANIFEST = {
             "reference count and byte compared with the model and with independent bookkeeping.",
     "note": "trusted: Lean kernel, harness, synctest quiescence; assumptions: callers' protocol for disk writers (continuity; no writer open at an id switch); "
             "partial: memory backend has step facts only (global refinement stated, not proved), one-step progress instead of a catch-up theorem. "
-            "Defects fixed: D14 (memory+disk), D17, D20-D27 (see known_findings.d/C05.json; D27 = re-scan with open readers at every source reconnect).",
+            "Defects fixed: D14 (memory+disk), D17, D20-D30 (see known_findings.d/C05.json; D27 = re-scan with open readers at every source reconnect, D28 = reset dead-lock with two tailing readers, D29 = snapshot reader open vs commit race, D30 = memory collector breaks the snapshot->log hand-over, fixed by c06).",
     "technique": "Lean 4 proof (invariant over arbitrary operation lists, step-level refinement) + differential correspondence on generated operation sequences",
 }
